@@ -5,6 +5,7 @@ package main
 import (
 	"fmt"
 	"io"
+	"os"
 	"sort"
 	"strings"
 	"time"
@@ -15,6 +16,7 @@ import (
 type rd struct {
 	step int
 	gap  time.Duration
+	hold bool
 }
 
 func (r *rd) Read(b []byte) (int, error) {
@@ -26,14 +28,21 @@ func (r *rd) Read(b []byte) (int, error) {
 		time.Sleep(r.gap)
 		return copy(b, "[A"), nil
 	}
+	if r.hold {
+		time.Sleep(30 * time.Millisecond) // keep the channel open while a late callback runs
+	}
 	return 0, io.EOF
 }
 
 func main() {
 	counts := map[string]int{}
-	for i := 0; i < 3000; i++ {
+	n := 3000
+	if len(os.Args) >= 2 {
+		n = 300
+	}
+	for i := 0; i < n; i++ {
 		gap := 9500*time.Microsecond + time.Duration(i%1000)*time.Microsecond
-		p := ansi.NewParser(&rd{gap: gap})
+		p := ansi.NewParser(&rd{gap: gap, hold: len(os.Args) < 2})
 		var toks []string
 		for seq := range p.Next() {
 			toks = append(toks, fmt.Sprint(seq))
